@@ -3,6 +3,7 @@ from .. import wire
 from ..choose import Chooser
 from ..runner import Result
 from ..solo import Solo, REQ, RESP
+from ..hpackmirror import raw_block, table_size_update
 
 ID = 'C11'
 LEVEL = 'exploration'
@@ -57,6 +58,8 @@ def run_case(data):
         s.call('send_headers', 1, REQ)
     else:
         s.feed(wire.headers(1, s.hblock(REQ)))
+    spare_stream = ch.bool()       # a second stream for a one-shot send-side probe (see 'recv')
+    spare_open = False
     probe_sids = [1]
     if client and ch.bool():
         # a promised stream (reserved (remote)) is governed by the local INITIAL_WINDOW_SIZE like any other
@@ -67,13 +70,25 @@ def run_case(data):
         probe_sids.append(2)
         r.labels.add('promised-stream-probed')
     win_truth = 65535             # advertised stream window per the model in force
+    conn_truth = 65535
+    if ch.bool():
+        # the peer has already used most of the probe stream's window (never acknowledged here): an acknowledged
+        # INITIAL_WINDOW_SIZE reduction then makes the advertised window negative, which is legal (RFC 7540 s6.9.2)
+        blob = (wire.headers(1, s.hblock(RESP)) if client else b'') + b''.join(wire.data(1, b'u' * 16384) for _ in range(3))
+        o = s.feed(blob)
+        if not o.ok:
+            r.violate('C11:harness:data-rejected', o.brief())
+            return r
+        win_truth -= 3 * 16384
+        conn_truth -= 3 * 16384
+        r.labels.add('probe-stream-window-partly-used')
     r.step('role', 'client' if client else 'server')
 
     def probes(where):
         truth = dev_cur if diverged else rfc_cur
         for psid in probe_sids:
             q = s.call('remote_flow_control_window', psid)
-            if q.ok and q.value != min(65535, win_truth):
+            if q.ok and q.value != min(conn_truth, win_truth if psid == 1 else win_truth + 65535 - conn_truth):
                 r.violate('C11:governed-window-wrong:%s' % where, 'stream %d library %r model %r' %
                           (psid, q.value, win_truth))
         if s.c.max_inbound_frame_size != truth[5]:
@@ -147,7 +162,33 @@ def run_case(data):
             if len(fifo) >= 2:
                 two_outstanding = True
             frame = fifo.pop(0)
-            o = s.feed(wire.settings(ack=True))
+            # behavioural probe of the inbound frame-size limit: a frame of a size that only one of the two
+            # limits allows, in the very receive_data call that carries the acknowledgement
+            probe = b''
+            probe_kind = None
+            if 5 in frame and dev_q.get(5) and dev_q[5][0] == frame[5] and not diverged and \
+                    rfc_cur[5] == dev_cur[5] and ch.bool():
+                old_lim, new_lim = rfc_cur[5], frame[5]
+                if new_lim > old_lim:
+                    probe, probe_kind = wire.raw(0x55, 0, 0, b'\0' * (old_lim + 1)), 'within-new-limit'
+                elif new_lim < old_lim and ch.chance(96):
+                    probe, probe_kind = wire.raw(0x55, 0, 0, b'\0' * (new_lim + 1)), 'beyond-new-limit'
+            o = s.feed(wire.settings(ack=True) + probe)
+            if probe_kind == 'beyond-new-limit':
+                r.labels.add('frame-size-probe-with-ack')
+                if o.ok:
+                    r.violate('C11:frame-beyond-acknowledged-limit-accepted', 'limit %d -> %d' % (old_lim, new_lim))
+                elif o.code != wire.FRAME_SIZE_ERROR:
+                    r.violate('C11:frame-beyond-acknowledged-limit-wrong-code:%s' % o.code, '')
+                r.step('ack + oversize frame', frame, o.brief())
+                break
+            if probe_kind == 'within-new-limit':
+                r.labels.add('frame-size-probe-with-ack')
+                if not o.ok:
+                    r.violate('C11:frame-within-acknowledged-limit-refused:%s' % o.exc_name,
+                              'limit %d -> %d, frame of %d bytes in the same receive_data call as the ACK' %
+                              (old_lim, new_lim, old_lim + 1))
+                    break
             if not o.ok:
                 # our own INITIAL_WINDOW_SIZE change may overflow a window we advertised: not generated here
                 r.violate('C11:ack-rejected:%s' % o.exc_name, repr(o.exc))
@@ -189,6 +230,10 @@ def run_case(data):
                 k = ch.pick([1, 2, 3, 4, 5, 6, 8, 0x10, 0xfff0])
                 if k in [p[0] for p in pairs]:
                     continue
+                if k == 1 and spare_stream:
+                    # (cases that will emit a header block later keep the peer's table size fixed: hpack.Encoder
+                    # mishandles two size changes before the next block - trusted base, see C13)
+                    continue
                 if k == 2:
                     v = 0 if client else ch.int(0, 1)
                 elif k in VALID:
@@ -211,6 +256,7 @@ def run_case(data):
                 r.violate('C11:valid-settings-rejected:%s' % o.exc_name, repr(pairs))
                 break
             evs = [e for e in o.events if e[0] == 'RemoteSettingsChanged']
+            old_remote_mfs = remote.get(5)
             want = [sorted((k, remote.get(k), v) for k, v in pairs)]
             for k, v in pairs:
                 remote[k] = v
@@ -237,6 +283,38 @@ def run_case(data):
                     r.violate('C11:remote-setting-not-immediate', 'key %d library %r model %r' % (k, got, v))
                     break
             r.labels.add('recv-settings')
+            if spare_stream and not spare_open and remote[5] > (old_remote_mfs or 16384) and not real_violation():
+                # the probe stream is opened while the peer allows large frames ...
+                if (client and remote.get(3, 100) < 2) or \
+                        (not client and (min(rfc_cur.get(3, 100), dev_cur.get(3, 100)) < 2 or
+                                         min(rfc_cur.get(6, 65536), dev_cur.get(6, 65536)) < 1000)):
+                    spare_stream = False        # a second stream is not allowed right now
+                else:
+                    spare_open = True
+                    # (fed as literals behind a table-size update to 0: valid whatever HEADER_TABLE_SIZE this
+                    # endpoint has had acknowledged in the meantime)
+                    o = s.call('send_headers', 3, REQ) if client else \
+                        s.feed(wire.headers(3, table_size_update(0) + raw_block(REQ)))
+                    if not o.ok:
+                        r.violate('C11:harness:probe-stream-not-opened', o.brief())
+                        break
+            elif spare_stream and spare_open and remote[5] < (old_remote_mfs or 16384) and remote[5] <= 70000 \
+                    and not real_violation():
+                # ... and used after the peer has lowered MAX_FRAME_SIZE again: the new value binds at once, on
+                # streams that exist already as well, so a larger header block is split accordingly
+                spare_stream = False
+                fill = [(b'x-fill', b'X' * (remote[5] + 50))]
+                o = s.call('send_headers', 3, fill if client else [(b':status', b'200')] + fill, end_stream=True)
+                r.step('big block on an older stream', 'peer MAX_FRAME_SIZE', remote[5],
+                       [(f.name, f.length) for f in o.frames], o.brief())
+                if not o.ok:
+                    r.violate('C11:valid-send-refused-after-remote-settings:%s' % o.exc_name, repr(o.exc)[:120])
+                    break
+                if any(f.length > remote[5] for f in o.frames):
+                    r.violate('C11:remote-max-frame-size-not-applied-to-existing-stream',
+                              'limit %d, frames %r' % (remote[5], [(f.name, f.length) for f in o.frames]))
+                    break
+                r.labels.add('remote-max-frame-size-probe')
         else:
             s.feed(wire.ping(b'\0' * 8))
         if not real_violation():
